@@ -1,5 +1,6 @@
 import Driver.Util
 import Amqp.Model.Get
+import Amqp.Model.RpcMicro
 open Amqp Amqp.Rpc Amqp.Get
 namespace Driver.C15
 
@@ -19,6 +20,28 @@ def showErr : Err → String
   | .timeout => "timeout" | .channelError => "channel-error" | .connectionError => "connection-error"
   | .notAllowedConsumers => "consumers-active"
 
+/-- micro events: `b:N1+N2` begin, `r` regStep, `p` pop, `x` beginRemove, `d` remStep, `f:Name` frame -/
+def parseEv (x : String) : Option RpcMicro.Ev :=
+  match x.splitOn ":" with
+  | ["b", ns] => some (.begin (ns.splitOn "+"))
+  | ["r"] => some .regStep
+  | ["p"] => some .pop
+  | ["x"] => some .beginRemove
+  | ["d"] => some .remStep
+  | ["f", n] => some (.frame { name := n, tag := 0, reply := true })
+  | _ => none
+
+def showPhase : RpcMicro.Phase → String
+  | .idle => "idle" | .reg .. => "reg" | .wait _ => "wait" | .rem .. => "rem"
+
+/-- after every event: request size / response size / KeyErrors so far / frames consumed / phase -/
+def microTrace (s : RpcMicro.S) : List RpcMicro.Ev → List String
+  | [] => []
+  | e :: es =>
+    match RpcMicro.step s e with
+    | none => ["disabled"]
+    | some s' => s!"{s'.t.request.length}/{s'.t.response.length}/{s'.keyErrors}/{s'.consumed.length}/{showPhase s'.phase}" :: microTrace s' es
+
 def handle : Handler
   | ["c15.get", tags, frames, ending] =>
     let tgs := if tags = "-" then [] else tags.splitOn ","
@@ -33,6 +56,10 @@ def handle : Handler
         | .raised er => s!"raised {showErr er}"
       some s!"{rs} req={t.request.length} resp={t.response.length} wrote={wrote} fell-through={handled.length} unread={left.length}"
     | _, _ => some "bad-op"
+  | ["c15.micro", evs] =>
+    match (evs.splitOn ",").mapM parseEv with
+    | some es => some (";".intercalate (microTrace RpcMicro.init es))
+    | none => some "bad-op"
   | _ => none
 
 end Driver.C15
